@@ -237,7 +237,10 @@ def _valid_inputs(case):
             if v is None:
                 return None if case["absent_as"] == "none" else np.datetime64("NaT")
             if case["bound_type"] == "py":
-                return dtm.datetime(1970, 1, 1) + dtm.timedelta(milliseconds=int(round(float(v) * 1000)))
+                try:
+                    return dtm.datetime(1970, 1, 1) + dtm.timedelta(milliseconds=int(round(float(v) * 1000)))
+                except OverflowError:  # beyond year 9999 (a far bound shifted further): only numpy can say it
+                    return np.datetime64(int(v), "s")
             if float(v) != int(v):
                 return np.datetime64(int(round(float(v) * 1000)), "ms")
             bu = unit if case.get("bound_unit", "same") == "same" else "s"
